@@ -31,6 +31,7 @@ pub fn run_case(case: &HistCase, st: &mut Stats, known_open: &dyn Fn(&str) -> bo
     let mut w = World::fixture(case.fixture);
     w.audit_mode = true;
     st.eval();
+    st.class(if case.fixture >= 100 { "fixture:lenient-4.0.1(version-dependently-named)" } else { "fixture:strict-00050" });
     let n = case.ops.len();
     if n == 0 {
         return Ok(());
@@ -187,14 +188,14 @@ pub fn run_case(case: &HistCase, st: &mut Stats, known_open: &dyn Fn(&str) -> bo
 
 pub fn run(ctx: &Ctx) {
     ctx.set_rule(
-        "A model with a reference graph (fixture document with references to the operated element, to nested elements, to name-prefix siblings /pkg1 vs /pkg10, dangling references, extended by up to 10 generated steps (reference-creating steps incl. dangling references equal to future paths, and earlier renames / moves, so that the judged operation often is the second one on the same sub tree) followed by ONE judged rename (set_item_name), move or move-at (same model: sibling package, ancestor, parent where the name exists; other model). \
+        "A model with a reference graph (fixture document - strict 00050, or in one case of four a leniently loaded 4.0.1 document whose CAN-TP-ADDRESS / CAN-TP-CHANNEL elements carry a SHORT-NAME their types have only in later versions - with references to the operated element, to nested elements, to name-prefix siblings /pkg1 vs /pkg10, dangling references, extended by up to 10 generated steps (reference-creating steps incl. dangling references equal to future paths, and earlier renames / moves, so that the judged operation often is the second one on the same sub tree) followed by ONE judged rename (set_item_name), move or move-at (same model: sibling package, ancestor, parent where the name exists; other model). \
          Oracle from the pre-state: a reference whose text resolved (own resolution on the tree) to an element in the renamed/moved sub tree must afterwards resolve - on the new tree and through get_element_by_path - to the same element object; every other reference keeps its text (don't-care: dangling references at or below the old path). Non-trivial: >= 1 reference into the sub tree and >= 1 other reference; distinct by call sequence.",
     );
     let known_open = |sig: &str| ctx.is_known_open(sig);
     let cases = ctx.tier.pick(60_000u64, 600_000u64);
     let prep = vec![(op::SET_REF, 10), (op::SET_DATA, 8), (op::NAMED, 6), (op::CREATE, 6), (op::RENAME, 5), (op::MOVE, 5), (op::COPY, 3), (op::LOAD, 1), (op::GET_OR_CREATE, 2)];
     let fin = vec![(op::RENAME, 5), (op::MOVE, 4), (op::MOVE_AT, 2)];
-    let strat = (0u32..2, proptest::collection::vec(op_strategy(&prep), 0..10), op_strategy(&fin));
+    let strat = (prop_oneof![3 => 0u32..2, 1 => 100u32..102], proptest::collection::vec(op_strategy(&prep), 0..10), op_strategy(&fin));
     run_prop(ctx, "rename-move", cases, strat, |(fixture, prep_ops, last), st| {
         let mut ops = prep_ops.clone();
         ops.push(*last);
